@@ -57,9 +57,15 @@ def gen(rng, tier):
         elif r < 0.7:
             cand = [i for i in range(n_pilots) if status[i] == 'added']
             if cand:
-                i = rng.choice(cand)
-                status[i] = 'removed'
-                ops.append(['remove', [i]])
+                # one command may take several pilots out (adjacent or not
+                # in the scheduler's own pilot list)
+                k = min(len(cand), rng.choice([1, 1, 2, 2, 3]))
+                sel = rng.sample(cand, k)
+                if rng.random() < 0.7:
+                    sel = sorted(sel)
+                for i in sel:
+                    status[i] = 'removed'
+                ops.append(['remove', sel])
         elif r < 0.85:
             i = rng.randrange(n_pilots)
             ops.append(['pstate', i, rng.choice(
